@@ -12,6 +12,7 @@ import ALV.Lemmas.C10Call
 import ALV.Lemmas.C10MinUniq
 import ALV.Lemmas.C10Float
 import ALV.Lemmas.C12Gauss
+import ALV.Lemmas.C10Src
 import ALV.Common.Audit
 
 namespace ALV.Props.C10
@@ -758,6 +759,73 @@ theorem gauss_inv (x : ALV.C12.GRat) :
 
 example : levinson [(⟨2, 1⟩ : ALV.C12.GRat), ⟨0, 1⟩] (some 1) = .ok ([1, ⟨-1/5, -2/5⟩], ⟨12/5, 4/5⟩) := by
   decide +kernel
+
+/-! ### The model IS the source: definitions regenerated from the text of the repo (translator)
+
+`ALV.Gen.C10.*` is rewritten by `harness/props/c10_tr.py` from `audiolazy/lazy_analysis.py` and
+`audiolazy/lazy_lpc.py` before every build; each theorem below says that what the source says NOW is the
+model function every other theorem of this file is about.  An argument `order` / `max_lag` is `None` or a
+natural number here (other spellings: call layer, `Model/C10Call`). -/
+section source
+variable {α : Type} [Add α] [Mul α] [Sub α] [Neg α] [Div α] [OfNat α 0] [OfNat α 1]
+
+/-- `acorr` as written in lazy_analysis.py is the model `acorr`. -/
+theorem src_acorr_is_model (blk : List α) (lag : Option Nat) :
+    ALV.Gen.C10.acorr blk (lag.map Int.ofNat) = acorr blk lag := Src.src_acorr_is_model blk lag
+
+/-- `lag_matrix` as written (with its ValueError exit) is the model `lagMatrix`. -/
+theorem src_lag_matrix_is_model (blk : List α) (lag : Option Nat) :
+    ALV.Gen.C10.lag_matrix blk (lag.map Int.ofNat) = lagMatrix blk lag := Src.src_lag_matrix_is_model blk lag
+
+/-- `toeplitz` as written is the model `toeplitz`. -/
+theorem src_toeplitz_is_model (vect : List α) : ALV.Gen.C10.toeplitz vect = toeplitz vect :=
+  Src.src_toeplitz_is_model vect
+
+variable [DecidableEq α]
+
+/-- the closure `inner` of `levinson_durbin` as written is the model `inner`. -/
+theorem src_levinson_inner_is_model (r a b : List α) :
+    ALV.Gen.C10.levinson_durbin_inner r a b = inner r a b := Src.src_levinson_inner_is_model r a b
+
+/-- `levinson_durbin` as written (default order, zero extension, the `for m` loop under
+    `except ZeroDivisionError: raise ParCorError`, the error attribute) is the model `levinson`.
+    The one exit outside the expression language is the IndexError of `acdata[0]` on an empty list with
+    the default order, which the model has by hand. -/
+theorem src_levinson_durbin_is_model (r : List α) (order : Option Nat) (h : order = none → r ≠ []) :
+    ALV.Gen.C10.levinson_durbin r (order.map Int.ofNat) = levinson r order :=
+  Src.src_levinson_is_model r order h
+
+/-- `lpc.kautocor` as written is the model `kautocor`. -/
+theorem src_kautocor_is_model (blk : List α) (order : Option Nat) (h : order = none → blk ≠ []) :
+    ALV.Gen.C10.lpc_kautocor blk (order.map Int.ofNat) = kautocor blk order :=
+  Src.src_kautocor_is_model blk order h
+
+/-- the closure `inner` of `lpc.kcovar` as written is the model `innerM`. -/
+theorem src_kcovar_inner_is_model (phi : List (List α)) (a b : List α) :
+    ALV.Gen.C10.lpc_kcovar_inner phi a b = innerM phi a b := Src.src_kcovar_inner_is_model phi a b
+
+/-- `lpc.kcovar` as written - `lag_matrix`, the initial `A`, `B`, `beta`, the `while True` loop with its three exits
+    (ZeroDivisionError of `/ beta[m - 1]` and of the `gamma` comprehension, ValueError of the stability test, the
+    return at `m >= order`), emitted as a recursion on a fuel of `order - m + 1` passes - is the model `kcovar`; the
+    two comparisons of the stability test are the emitted `lpc_kcovar_cmp0` (`k >= 1`) and `lpc_kcovar_cmp1`
+    (`k <= -1`).  Hypothesis: the lag table has at least 2 rows (order >= 1); below that the source raises the
+    IndexError of `phi[0][1]`, which is outside the expression language and which the model has by hand. -/
+theorem src_kcovar_is_model [LE α] [DecidableRel (α := α) (· ≤ ·)] (blk : List α) (order : Option Nat)
+    (h : ∀ phi, lagMatrix blk order = .ok phi → 2 ≤ phi.length) :
+    ALV.Gen.C10.lpc_kcovar ALV.Gen.C10.lpc_kcovar_cmp0 ALV.Gen.C10.lpc_kcovar_cmp1 blk (order.map Int.ofNat)
+      = kcovar blk order := Src.src_kcovar_is_model blk order h
+
+/-- the names registered by the `@lpc.strategy(...)` decorators, in source order, are the model's table. -/
+theorem src_strategy_names_is_model : ALV.Gen.C10.strategyNames = strategyNames.map (·.2) :=
+  Src.src_strategy_names
+
+/-- non-vacuity: the regenerated definitions run (docstring example of levinson_durbin) -/
+example : ALV.Gen.C10.levinson_durbin [(12 : Rat), 6, 0, -3] (some 3) = .ok ([1, -5/8, 1/4, 1/8], 63/8) := by
+  decide +kernel
+example : ∀ phi, lagMatrix [(1 : Rat), 2, 4, 3, 1] (some 2) = .ok phi → 2 ≤ phi.length := by
+  intro phi h; simp [lagMatrix] at h; subst h; simp [lagTable]
+example : ALV.Gen.C10.acorr [(1 : Rat), 2, 3, 4, 3, 4, 2] none = [59, 52, 42, 30, 17, 8, 2] := by decide +kernel
+end source
 
 end ALV.Props.C10
 
